@@ -24,7 +24,7 @@ pub fn def() -> CheckDef {
         runs_quick: 250_000,
         runs_thorough: 5_000_000,
         rule: "seeded interleavings: history h1 on an instance, clone at a seeded point (mid-block for byte-level types), then operations on original and clone interleaved operation by operation by the scheduler; or two unrelated instances (different key/IV) interleaved; compared with sequential replays on fresh instances. All cloneable public types (12 block-mode types, 7 byte-stream aliases and cores, BufEncryptor/BufDecryptor); BeltCtr/BeltCtrCore (not Clone) only as unrelated instances. distinct = distinct (type, block size, cipher, width, clone point, interleaving pattern, op forms); non-trivial = >= 1 data op on each actor after the clone",
-        required_probes: &["clone_mid_block", "ctr_core_clone", "three_alternations", "unrelated_instances", "buf_clone", "belt_unrelated", "cts_clone"],
+        required_probes: &["clone_mid_block", "ctr_core_clone", "three_alternations", "unrelated_instances", "buf_clone", "belt_unrelated", "cts_clone", "second_clone"],
         r#gen,
         exec,
         components: "real code: all stateful public types of the nine crates incl. their Clone impls (CtrCore's is hand-written); stub: block cipher in most runs, real ciphers in the rest; scheduler: the op list itself (call-granular interleaving is the whole space: every mutating method takes &mut self and the crates forbid unsafe); no reference model",
@@ -76,8 +76,13 @@ fn r#gen(rng: &mut Rng, thorough: bool) -> Scn {
     if !unrelated {
         s.ops.push(Op::new("clone"));
     }
-    for _ in 0..n2 {
-        let o = extra(rng, &s).who(rng.below(2) as u8);
+    let second_clone_at = if !unrelated && rng.chance(1, 3) { Some(rng.usize(n2)) } else { None };
+    for j in 0..n2 {
+        if Some(j) == second_clone_at {
+            // a clone of the original or of the first clone
+            s.ops.push(Op::new("clone").who(rng.below(2) as u8));
+        }
+        let o = extra(rng, &s).who(rng.below(6) as u8);
         s.ops.push(o);
     }
     s
@@ -111,40 +116,51 @@ fn exec(scn: &Scn, ctx: &mut Ctx) -> Verdict {
             Inst::make(fam, &scn.mode, bs, scn.cipher, &scn.key, &scn.iv, tag, 0)
         }
     };
-    let clone_at = scn.ops.iter().position(|o| o.k == "clone");
-    if unrelated == clone_at.is_some() {
-        invalid!("clone op and unrelated flag disagree");
+    let nclones = scn.ops.iter().filter(|o| o.k == "clone").count();
+    if (unrelated && nclones != 0) || (!unrelated && nclones == 0) || nclones > 2 {
+        invalid!("clone ops and unrelated flag disagree");
     }
-    if scn.ops.iter().filter(|o| o.k == "clone").count() > 1 {
-        invalid!("one clone only");
-    }
-    let mut o = match mk(0, false) {
+    let o = match mk(0, false) {
         Ok(i) => i,
         Err(MkErr::Unsupported) => invalid!("unsupported"),
         Err(_) => violation!("construct", "rejected"),
     };
-    let mut k: Option<Inst> = if unrelated { Some(mk(1, true).unwrap()) } else { None };
-
+    // actors: 0 = original; further ones are clones (of any earlier actor) or, in the unrelated
+    // scenario, one independent instance.  lineage[a] = indices of the ops that shaped actor a.
+    let mut actors: Vec<Inst> = vec![o];
+    let mut second: Vec<bool> = vec![false];
+    let mut lineage: Vec<Vec<usize>> = vec![Vec::new()];
+    if unrelated {
+        actors.push(mk(1, true).unwrap());
+        second.push(true);
+        lineage.push(Vec::new());
+    }
     // --- interleaved execution
-    let mut outs: Vec<Option<Result<Vec<u8>, String>>> = Vec::new();
-    let mut bytes_done = [0usize; 2];
+    let mut outs: Vec<Option<(usize, Result<Vec<u8>, String>)>> = Vec::new();
+    let mut bytes_done = vec![0usize; 4];
     let mut alternations = 0;
-    let mut last_who = 9u8;
-    let mut data_after = [0u32; 2];
+    let mut last_who = 99usize;
+    let mut data_after = vec![0u32; 4];
     for (i, op) in scn.ops.iter().enumerate() {
         if op.k == "clone" {
-            ctx.probe_if(matches!(o, Inst::S(_) | Inst::F(_)) && bytes_done[0] % bs != 0, "clone_mid_block");
+            let src = op.who as usize % actors.len();
+            ctx.probe_if(matches!(actors[src], Inst::S(_) | Inst::F(_)) && bytes_done[src] % bs != 0, "clone_mid_block");
             ctx.probe_if(fam == FAM_CORE && scn.mode.starts_with("ctr"), "ctr_core_clone");
             ctx.probe_if(fam == FAM_BUF, "buf_clone");
-            k = match o.dup() {
-                Some(c) => Some(c),
+            ctx.probe_if(actors.len() >= 2, "second_clone");
+            let c = match actors[src].dup() {
+                Some(c) => c,
                 None => invalid!("type is not Clone"),
             };
+            bytes_done[actors.len()] = bytes_done[src];
+            actors.push(c);
+            second.push(second[src]);
+            lineage.push(lineage[src].clone());
             outs.push(None);
             continue;
         }
-        let who = if k.is_none() { 0 } else { op.who % 2 };
-        let inst = if who == 0 { &mut o } else { k.as_mut().unwrap() };
+        let who = op.who as usize % actors.len();
+        let inst = &mut actors[who];
         let n = op.n as usize * inst.unit();
         if n > 1 << 15 {
             invalid!("too long");
@@ -158,74 +174,60 @@ fn exec(scn: &Scn, ctx: &mut Ctx) -> Verdict {
                 invalid!("{}", e);
             }
         }
+        lineage[who].push(i);
         if op.k == "data" {
-            bytes_done[who as usize] += n;
-            if k.is_some() && (clone_at.map(|c| i > c).unwrap_or(true)) {
-                data_after[who as usize] += (n > 0) as u32;
+            bytes_done[who] += n;
+            if actors.len() > 1 {
+                data_after[who] += (n > 0) as u32;
             }
         } else if op.k == "seek" {
-            bytes_done[who as usize] = op.p as usize;
+            bytes_done[who] = op.p as usize;
         }
-        if k.is_some() && who != last_who {
+        if actors.len() > 1 && who != last_who {
             alternations += 1;
             last_who = who;
         }
         if let Ok(v) = &r {
             ctx.fp.bytes(v);
         }
-        outs.push(Some(r));
+        outs.push(Some((who, r)));
     }
-    let snap_o = o.snapshot();
-    let snap_k = k.as_ref().map(|k| k.snapshot());
+    let snaps: Vec<Vec<u8>> = actors.iter().map(|a| a.snapshot()).collect();
     ctx.probe_if(alternations >= 4, "three_alternations");
     ctx.probe_if(unrelated, "unrelated_instances");
     ctx.probe_if(unrelated && scn.mode == "belt", "belt_unrelated");
-    ctx.nontrivial = data_after[0] > 0 && data_after[1] > 0;
-    drop(o);
-    drop(k);
+    ctx.nontrivial = data_after.iter().filter(|d| **d > 0).count() >= 2;
+    let nact = actors.len();
+    drop(actors);
 
-    // --- sequential replays on fresh instances
-    for actor in 0..2u8 {
-        if actor == 1 && snap_k.is_none() {
-            continue;
-        }
-        let mut r = mk(2 + actor, actor == 1 && unrelated).unwrap();
-        for (i, op) in scn.ops.iter().enumerate() {
-            if op.k == "clone" {
-                continue;
-            }
-            let before_clone = clone_at.map(|c| i < c).unwrap_or(false);
-            let who = if unrelated { op.who % 2 } else if before_clone { 0 } else { op.who % 2 };
-            // h1 belongs to both replays in the clone scenario; in the unrelated scenario every op
-            // belongs to exactly one actor
-            let mine = if unrelated { who == actor } else { before_clone || who == actor };
-            if !mine {
-                continue;
-            }
+    // --- sequential replays on fresh instances: actor a's lineage, nothing else
+    for a in 0..nact {
+        let mut r = mk(4 + a as u8, second[a]).unwrap();
+        for &i in &lineage[a] {
+            let op = &scn.ops[i];
             let n = op.n as usize * r.unit();
             let inp = if op.k == "data" { op_input(scn, i, n) } else { Vec::new() };
             let got = r.step(op, &inp, scn.dirt(i, inp.len()));
-            // the interleaved run executed this op on actor `who` (h1 ops: on O only)
-            if before_clone && actor == 1 {
-                // K never executed h1 itself; its replay just has to reach the same state
+            let (who, inter) = outs[i].as_ref().unwrap();
+            // ops inherited through a clone were physically executed on the ancestor: the replay
+            // only has to reach the same state through them
+            if *who != a {
                 continue;
             }
-            let inter = outs[i].as_ref().unwrap();
             if &got != inter {
                 let what = match (&got, inter) {
-                    (Ok(a), Ok(b)) => format!("outputs differ at byte {} of {}", first_diff(a, b), a.len()),
-                    (a, b) => format!("results differ: replay {:?}, interleaved {:?}", a.as_ref().map(|v| v.len()), b.as_ref().map(|v| v.len())),
+                    (Ok(x), Ok(y)) => format!("outputs differ at byte {} of {}", first_diff(x, y), x.len()),
+                    (x, y) => format!("results differ: replay {:?}, interleaved {:?}", x.as_ref().map(|v| v.len()), y.as_ref().map(|v| v.len())),
                 };
                 violation!(
-                    if unrelated { "instances_interfere" } else if actor == 0 { "original_affected" } else { "clone_differs" },
-                    "op {} ({} n={} via={}) on {}: {} (interleaved run vs sequential replay on a fresh instance)",
-                    i, op.k, op.n, op.via, if actor == 0 { "the original" } else if unrelated { "the second instance" } else { "the clone" }, what
+                    if unrelated { "instances_interfere" } else if a == 0 { "original_affected" } else { "clone_differs" },
+                    "op {} ({} n={} via={}) on actor {} ({}): {} (interleaved run vs sequential replay on a fresh instance)",
+                    i, op.k, op.n, op.via, a, if a == 0 { "the original" } else if unrelated { "the second instance" } else { "a clone" }, what
                 );
             }
         }
-        let want = if actor == 0 { &snap_o } else { snap_k.as_ref().unwrap() };
-        if &r.snapshot() != want {
-            violation!(if actor == 0 { "original_state" } else { "clone_state" }, "final observable state of actor {} differs from its sequential replay", actor);
+        if r.snapshot() != snaps[a] {
+            violation!(if a == 0 { "original_state" } else { "clone_state" }, "final observable state of actor {} differs from its sequential replay", a);
         }
     }
     Verdict::Ok
